@@ -46,3 +46,16 @@ impl AtStaticImpl for AtStaticTarget {
         vec![x, y]
     }
 }
+
+/// async_trait written with arguments
+#[entrait]
+#[async_trait::async_trait(?Send)]
+pub trait AtArgsPlain {
+    async fn a(&self, x: u8, y: u8) -> Vec<u8>;
+}
+#[entrait(delegate_by = ref)]
+#[async_trait::async_trait(?Send)]
+pub trait AtArgsRef {
+    async fn a(&self, x: u8, y: u8) -> Vec<u8>;
+    fn sync(&self, x: u8) -> u8;
+}
